@@ -200,7 +200,8 @@ def gen_history(rng, keys, n, p_remove=0.2, p_expand=0.05, p_reload=0.05, p_auto
     for _ in range(n):
         r = rng.random()
         if r > 1 - p_auto:
-            ops.append(("auto", rng.random() < 0.5) if rng.random() < 0.7 else ("rate", rng.choice([1, 2, 3])))
+            q = rng.random()
+            ops.append(("auto", rng.random() < 0.5) if q < 0.6 else (("rate", rng.choice([1, 2, 3])) if q < 0.85 else ("badset", rng.choice([0, 5, 9, -1, 4.5]))))
         elif r < p_remove:
             ops.append(("remove", rng.choice(keys)))
         elif r < p_remove + p_expand:
@@ -209,6 +210,8 @@ def gen_history(rng, keys, n, p_remove=0.2, p_expand=0.05, p_reload=0.05, p_auto
             ops.append(("reload", rng.choice(["bytes", "path"])))
         else:
             ops.append(("add", rng.choice(keys)))
+            if rng.random() < 0.15:
+                ops.append(ops[-1])  # the same key once more, right away (whatever the first call remembered about it is used at once)
     return ops
 
 
@@ -307,6 +310,14 @@ def iter_history(ctx, P, cfg, keys, ops, scratch, oracle, on_new=None, stats=Non
             except CuckooFilterFullError as e:
                 outcome = ("full", e)
                 stats["failed_expansions"] += 1
+        elif kind == "badset":
+            # a setting that is REFUSED (fingerprint size outside 1..4 bytes): the refusal leaves the filter as it was
+            try:
+                f.fingerprint_size = op[1]
+                outcome = ("accepted", None)
+            except (ValueError, TypeError):
+                outcome = ("ok", None)
+                stats["refused_settings"] += 1
         elif kind == "rate":
             f.expansion_rate = op[1]  # the documented setter
             cfg.expansion_rate = op[1]
